@@ -467,7 +467,9 @@ type CheckAt struct {
 	Props  []string
 	Callee string // "" for channel sends
 	Send   bool
-	Cond   *Clause
+	// MapUpdate: 0 = not a map-store point, -1 = every map store, k > 0 = the k-th map store in source order
+	MapUpdate int
+	Cond      *Clause
 }
 
 type Gate struct {
@@ -883,6 +885,18 @@ func (db *SpecDB) parseSpecText(text, file, pkgPath string) error {
 			case strings.HasPrefix(tail, "send"):
 				ca.Send = true
 				tail = strings.TrimSpace(strings.TrimPrefix(tail, "send"))
+			case strings.HasPrefix(tail, "mapupdate"):
+				// mapupdate[#k]: the k-th map store (m[key] = value) in source order; binds map, key, value
+				tail = strings.TrimSpace(strings.TrimPrefix(tail, "mapupdate"))
+				ca.MapUpdate = -1
+				if strings.HasPrefix(tail, "#") {
+					j := 1
+					for j < len(tail) && tail[j] >= '0' && tail[j] <= '9' {
+						j++
+					}
+					fmt.Sscan(tail[1:j], &ca.MapUpdate)
+					tail = strings.TrimSpace(tail[j:])
+				}
 			case strings.HasPrefix(tail, "call "):
 				t2 := strings.TrimSpace(strings.TrimPrefix(tail, "call "))
 				if !strings.HasPrefix(t2, "\"") {
@@ -895,7 +909,7 @@ func (db *SpecDB) parseSpecText(text, file, pkgPath string) error {
 				ca.Callee = t2[1 : k+1]
 				tail = strings.TrimSpace(t2[k+2:])
 			default:
-				return fail("check-at: expected send or call \"callee\"")
+				return fail("check-at: expected send, mapupdate[#k] or call \"callee\"")
 			}
 			if !strings.HasPrefix(tail, ":") {
 				return fail("check-at: missing ': cond'")
